@@ -5,6 +5,7 @@ import (
 	"fmt"
 	"reflect"
 	"strconv"
+	"strings"
 	"time"
 
 	"verif/idp"
@@ -21,7 +22,17 @@ var c06AudValues = []string{
 	" " + world.Audience,
 	"https://other.example.com/audience",
 	"",
+	// what a URL library would call the same URI (not part of the product alphabet; tried one
+	// at a time below): scheme in upper case, an empty fragment, an empty query, a default port
+	"HTTPS" + world.Audience[5:],
+	world.Audience + "#",
+	world.Audience + "?",
+	strings.Replace(world.Audience, "sp.example.com", "sp.example.com:443", 1),
+	"#", // (the same URI as the empty one, to such a library)
 }
+
+// c06Product is the number of alphabet values that take part in the full product.
+const c06Product = 6
 
 var c06URIs = []string{world.Audience, "", "HTTPS://SP.EXAMPLE.COM/AUDIENCE"}
 
@@ -199,7 +210,7 @@ func c06Replay(raw json.RawMessage) ([]string, string) {
 
 func c06Lists() [][]int {
 	out := [][]int{{}}
-	n := len(c06AudValues)
+	n := c06Product
 	for i := 0; i < n; i++ {
 		out = append(out, []int{i})
 	}
@@ -214,6 +225,13 @@ func c06Lists() [][]int {
 func c06Docs(maxR int) []c06Case {
 	lists := c06Lists()
 	var docs []c06Case
+	// the URL-equivalent spellings: alone, before and after an unrelated audience, and as a
+	// second restriction beside one that names the audience exactly
+	for i := c06Product; i < len(c06AudValues); i++ {
+		for _, restr := range [][][]int{{{i}}, {{i, 4}}, {{4, i}}, {{0}, {i}}} {
+			docs = append(docs, c06Case{Restr: restr}, c06Case{Restr: restr, PerAssertion: true})
+		}
+	}
 	var rec func(prefix [][]int, depth int)
 	rec = func(prefix [][]int, depth int) {
 		full := len(prefix) <= 2
@@ -248,7 +266,7 @@ func c06Run(r *mc.Run) {
 	if r.Thorough() {
 		maxR = 3
 	}
-	r.Rule = fmt.Sprintf("every sequence of 0..%d AudienceRestrictions, each every ordered list of 0..2 audiences over a 6-value near-miss alphabet (exact, case, trailing slash, leading space, other, empty) x OneTimeUse x 5 ProxyRestriction shapes (Response-signed; the shapes with at most one restriction also in an unsigned Response whose assertions are signed individually, alone and followed by a second assertion that says the opposite) (full product up to 2 restrictions; at 3 restrictions at most one of OneTimeUse/Proxy deviates) x 3 configured audience URIs (exact, empty, upper-case), plus (up to 1 restriction) a second assertion whose conditions say the opposite; non-trivial = accepted genuine response whose warnings were compared; distinct = distinct (document, uri)", maxR)
+	r.Rule = fmt.Sprintf("every sequence of 0..%d AudienceRestrictions, each every ordered list of 0..2 audiences over a 6-value near-miss alphabet (exact, case, trailing slash, leading space, other, empty; four URL-equivalent spellings - scheme case, empty fragment, empty query, default port - are tried one at a time) x OneTimeUse x 5 ProxyRestriction shapes (Response-signed; the shapes with at most one restriction also in an unsigned Response whose assertions are signed individually, alone and followed by a second assertion that says the opposite) (full product up to 2 restrictions; at 3 restrictions at most one of OneTimeUse/Proxy deviates) x 3 configured audience URIs (exact, empty, upper-case), plus (up to 1 restriction) a second assertion whose conditions say the opposite; non-trivial = accepted genuine response whose warnings were compared; distinct = distinct (document, uri)", maxR)
 	docs := c06Docs(maxR)
 	r.Set("documents", len(docs))
 	r.State(len(docs))
